@@ -15,7 +15,8 @@ EXPLANATION = (
     "(captured once, before the level loop), t0 = 0 and ab = ab_tmp_ precede CVodeReInit(cv_mem_, t0, cv_y_), the last sub-step target "
     "canonicalises to dt, and CVode reports progress into t0; R4 odeint: the observer throws when step_ > mxsteps_, the thrown type is the type "
     "Solve catches, the handler sets flag = NAUNET_FAIL, Solve returns flag, integrate_adaptive runs over [0, dt] with that observer; R5 every "
-    "caller of Solve inside the templates tests its result (cvode and odeint Python wrappers agree).")
+    "caller of Solve inside the templates tests its result (cvode and odeint Python wrappers agree); R6 (premise of R3) cv_y_ has no storage of its own "
+    "and is pointed at the caller's array before CVodeInit, so the state HandleError writes is the state CVodeReInit restarts from.")
 ASSUMPTIONS = [
     "CVODE's / Boost.Odeint's own behaviour, floating-point exactness of pow(10, log10(dt)) and the scheduling of failures are not decided",
     "DESIGN.md Appendix D gives the invariant whose premises R2/R3 are",
@@ -47,6 +48,37 @@ def check(ctx):
     _r2_r3(ctx)
     _r4(ctx)
     _r5(ctx)
+    _r6(ctx)
+
+
+def _r6(ctx):
+    """The ladder of HandleError restores / keeps the state by writing the caller's array `ab` and then CVodeReInit(.., cv_y_).
+    That reaches the integrator only because cv_y_ has no storage of its own and is pointed at `ab` before CVodeInit: the
+    aliasing is a premise of R3 (dense and sparse; the cusparse branch is the listed finding)."""
+    for mth in ("dense", "sparse"):
+        cfg = {"general.method": mth}
+        sk = Skel(J.flatten(ctx.tree, CV, cfg))
+        fs = sk.func("Naunet::Solve")
+        if not fs:
+            ctx.missing("R6", f"cvode/{mth}:Solve", (CV, 0), "Naunet::Solve not found")
+            continue
+        body = sk.plain(fs[0].body)
+        alias = [m.start() for m in re.finditer(r"\bN_VSetArrayPointer\s*\(\s*ab\s*,\s*cv_y_\s*\)", body)]
+        init = [m.start() for m in re.finditer(r"\bCVodeInit\s*\(\s*cv_mem_\s*,\s*\w+\s*,\s*\w+\s*,\s*cv_y_\s*\)", body)]
+        ok = len(alias) == 1 and len(init) == 1 and alias[0] < init[0]
+        ctx.check(ok, "R6", f"cvode/{mth}:Solve:cv_y_ wraps ab", (CV, 0),
+                  "N_VSetArrayPointer(ab, cv_y_) precedes CVodeInit(cv_mem_, Fex, t0, cv_y_): what HandleError writes into ab is the integrator's state" if ok else
+                  "cv_y_ is not pointed at the caller's array before CVodeInit: HandleError resets `ab` (flag -6: back to ab_init_) but CVodeReInit restarts from cv_y_'s own copy -- "
+                  "the interval is integrated from the partially advanced state and Solve reports success",
+                  expected="N_VSetArrayPointer(ab, cv_y_); ... CVodeInit(cv_mem_, Fex, t0, cv_y_)", found=f"{len(alias)} aliasing call(s), {len(init)} CVodeInit on cv_y_")
+        for fname in ("Naunet::Init", "Naunet::Reset"):
+            f2 = sk.func(fname)
+            if not f2:
+                continue
+            b2 = sk.plain(f2[0].body)
+            mk = re.findall(r"cv_y_\s*=\s*(\w+)\s*\(", b2)
+            ctx.check(bool(mk) and set(mk) == {"N_VNewEmpty_Serial"}, "R6", f"cvode/{mth}:{fname.split('::')[1]}:cv_y_ has no storage of its own", (CV, 0),
+                      "cv_y_ is an empty vector (data pointer set per Solve call)", expected="cv_y_ = N_VNewEmpty_Serial(..)", found=str(mk))
 
 
 def _r1(ctx):
@@ -282,6 +314,7 @@ def _r5(ctx):
 
 
 MUTANTS = [
+    {"name": "cv_y-own-storage-copy-in", "file": CV, "old": "    N_VSetArrayPointer(ab, cv_y_);\n", "new": "    realtype *ydata = N_VGetArrayPointer(cv_y_);\n    for (int i = 0; i < NEQUATIONS; i++) ydata[i] = ab[i];\n", "rules": ["R6"]},
     {"name": "dt-minus-t0-deleted", "file": CV, "old": "            dt -= t0;\n", "new": "", "rules": ["R3"]},
     {"name": "reset-keeps-dt", "file": CV, "old": "            dt = dt_init;\n", "new": "            dt = dt;\n", "rules": ["R3"]},
     {"name": "recoverable-set-shrunk", "file": CV, "old": "if (cvflag < 0 && cvflag > -5) {", "new": "if (cvflag < 0 && cvflag > -4) {", "rules": ["R3"]},
